@@ -99,6 +99,7 @@ type FnEnc struct {
 	err       error
 	oblNames  map[string]int
 	skipPkgInv bool
+	structural []string
 	modAllowed map[string]func(string, string) string
 	modAllowedDone bool
 	symCache  map[int][]string
